@@ -15,6 +15,8 @@ ACTIONS = ["FromWord", "FromDword", "FromStaticWords", "Ones", "BufAllocate", "B
 def fix_ones():
     """FixOnes of spec/C05/MC_ReprLayer.cfg: FALSE = Repr::ones as in the pinned tree (finding F01 open),
     TRUE = repaired code.  This one constant is what has to be flipped when the fix is committed."""
+    if os.environ.get("VERIF_FIXONES") in ("TRUE", "FALSE"):   # development aid, like VERIF_REPO
+        return os.environ["VERIF_FIXONES"] == "TRUE"
     txt = open(os.path.join(fw.SPEC, SPECDIR, "MC_ReprLayer.cfg")).read()
     m = re.search(r"FixOnes\s*=\s*(TRUE|FALSE)", txt)
     if not m:
@@ -187,6 +189,15 @@ def key(e):
     return json.dumps([e["pool"], e["steps"]], sort_keys=True)
 
 
+def assume_fixed(ctx):
+    """development aid (with VERIF_REPO pointing at a worktree that carries candidate fixes):
+    VERIF_ASSUME_FIXED=F01,F41 treats these entries as fixed for this run; nothing is written"""
+    ids = [x for x in os.environ.get("VERIF_ASSUME_FIXED", "").split(",") if x]
+    if ids:
+        ctx.known = [dict(k, status="fixed") if k["id"] in ids else k for k in ctx.known]
+        fw.log("[dev] treated as fixed for this run: %s" % ids)
+
+
 def witnesses(ctx, prop):
     return [k["witness"] for k in ctx.known if prop in k.get("properties", []) and isinstance(k.get("witness"), dict)
             and "steps" in k["witness"]]
@@ -231,6 +242,7 @@ def monitor_all(ctx, name, trace, totals, chunk=5000, timeout=1500):
 
 def run(ctx):
     drive = fw.build("std64", "c05")
+    assume_fixed(ctx)
     totals = {"drift": 0, "noncanon": 0}
     if ctx.replay:
         case = json.load(open(ctx.replay))["case"]
@@ -243,7 +255,7 @@ def run(ctx):
     ctx.mc("mc-orderdef", SPECDIR, "MC_OrderDef.tla", "MC_OrderDef.cfg", workers=2)
     mcinfo = mc_repr_layer(ctx, ["CanonicalOrKnown"], ["CanonicalStrict"], "CanonicalStrict")
     # spec -> impl: histories of depth <= 3 over the boundary constants (Gen_C05)
-    s2, s3 = ctx.pick((16, 32), (1, 13))
+    s2, s3 = ctx.pick((16, 32), (1, 26))
     ctx.scope.update({"gen": {"depth": 3, "sample_level2": "1/%d" % s2, "sample_level3": "1/%d" % s3,
                               "full_space_histories": 8 * (49 ** 3) + 16 * (44 ** 3)}})
     cfg = fw.write_cfg(ctx.path("Gen_C05.cfg"), invariants=["Emit"],
@@ -260,7 +272,7 @@ def run(ctx):
     tr2 = ctx.drive(drive, ["--cases", p, "--n", "0"], "trace-directed.ndjson")
     monitor_all(ctx, "mon-directed", tr2, totals)
     # impl -> spec: seeded random histories, all four pools
-    n_int, n_fq = ctx.pick((1600, 500), (24000, 6000))
+    n_int, n_fq = ctx.pick((1600, 500), (20000, 5000))
     tr3 = ctx.drive(drive, ["--seed", str(ctx.seed), "--n", str(n_int), "--len", "14", "--max-words", "6", "--pools", "U,I"],
                     "trace-rnd-int.ndjson")
     monitor_all(ctx, "mon-rnd-int", tr3, totals)
